@@ -119,10 +119,24 @@ def ensure_gosum():
         shutil.copy(src, dst)
 
 
+def modfile_args(outdir):
+    """tools/seedtest.py only: VERIF_REPO points the harness at a scratch worktree of data-server instead of /repo
+    (alternative go.mod through -modfile; the registered commands never set it and build from /repo)."""
+    repo = os.environ.get("VERIF_REPO")
+    if not repo:
+        return []
+    alt = os.path.join(outdir, "go.alt.mod")
+    if not os.path.exists(alt):
+        mod = open(os.path.join(HARNESS, "go.mod")).read().replace("=> /repo\n", "=> %s\n" % repo)
+        open(alt, "w").write(mod)
+        shutil.copy(os.path.join(HARNESS, "go.sum"), os.path.join(outdir, "go.alt.sum"))
+    return ["-modfile=" + alt]
+
+
 def build(pkg, outdir, race=False):
     ensure_gosum()
     out = os.path.join(outdir, pkg + (".race" if race else "") + ".test")
-    cmd = ["go", "test", "-c", "-tags", "verif", "-vet=off", "-o", out]
+    cmd = ["go", "test", "-c", "-tags", "verif", "-vet=off", "-o", out] + modfile_args(outdir)
     if race:
         cmd.append("-race")
     cmd.append("./" + pkg)
@@ -180,7 +194,7 @@ def run_check(pid, tier):
             procs = []
             if run.get("fuzz"):
                 e = dict(env)
-                cmd = ["go", "test", "-tags", "verif", "-vet=off", "-count=1", "-run", "^$", "-fuzz", "^%s$" % run["fuzz"],
+                cmd = ["go", "test", "-tags", "verif", "-vet=off", "-count=1"] + modfile_args(work) + ["-run", "^$", "-fuzz", "^%s$" % run["fuzz"],
                        "-fuzztime", "%ds" % run["fuzztime"], "-timeout", "%ds" % run["timeout"], "."]
                 log = open(os.path.join(work, "run%d-fuzz.log" % runix), "w")
                 pr = subprocess.Popen(cmd, cwd=os.path.join(HARNESS, cfg["pkg"]), env=e, stdout=log, stderr=subprocess.STDOUT)
